@@ -40,17 +40,34 @@ def run(chk):
     # --- binary tree, red-black tree, map: clear is in the closure alphabet of every state
     c_exe, m_exe = vlib.prepare_area(chk, tree, leanchecker=True)
     if c_exe:
+        cleared_in = []     # closure transitions whose last operation is a clear
+
+        def tree_oracle(prop, script, c_lines):
+            if script and script[-1].split()[-1] in ("clear", "clear0"):
+                cleared_in.append(script)
+            return tree.oracle(prop, script, c_lines)
         vlib.run_scripts(chk, tree, c_exe, m_exe, tree.corpus(), tree.oracle)
         strip = lambda l: tree.strip_ids(l.split("|", 1)[1]) if "|" in l else l
         for cont, nmax, keys in ([("bt", 6, (0, 1, 2)), ("rb", 6, (0, 1, 2))] if quick
                                  else [("bt", 7, (0, 1, 2)), ("rb", 8, (0, 1, 2))]):
             closed = vlib.closure(chk, tree.NAME, c_exe, m_exe, [], tree.tree_alphabet(cont, keys, nmax),
-                                  20 if quick else 30, 100000 if quick else 400000, tree.oracle, state_of=strip) and closed
+                                  20 if quick else 30, 100000 if quick else 400000, tree_oracle, state_of=strip) and closed
         closed = vlib.closure(chk, tree.NAME, c_exe, m_exe, [], tree.map_alphabet(4 if quick else 5), 14, 100000,
-                              tree.oracle, state_of=lambda l: tree.strip_payload(l.split("|", 1)[1]) if "|" in l else l) and closed
+                              tree_oracle, state_of=lambda l: tree.strip_payload(l.split("|", 1)[1]) if "|" in l else l) and closed
         # states that distinguish the stored key / value pointers (one key object is the NULL pointer)
         closed = vlib.closure(chk, tree.NAME, c_exe, m_exe, [], tree.map_alphabet(3 if quick else 4), 14, 400000,
                               tree.oracle, state_of=lambda l: tree.strip_ids(l.split("|", 1)[1]) if "|" in l else l) and closed
+        # "usable exactly like a freshly initialised one": after every clear reached in the closures (the
+        # model's state is the initial one again, whatever the history left behind in the real object),
+        # a fresh fill, use, erase, second clear and refill
+        refill = {"map": ["map ins 0 1 1", "map ins 2 2 1", "map find 0", "map eraseit 1", "map clear", "map ins 4 1 1",
+                          "map ins 6 2 1", "map erase 2", "map clear0", "map ins 0 1 1", "map clear"]}
+        for c in ("bt", "rb"):
+            refill[c] = [c + " ins 1 5", c + " ins 2 3", c + " ins 3 8", c + " find 5", c + " erase 3", c + " fe fwd -1",
+                         c + " clear", c + " ins 1 1", c + " clear"]
+        again = [sc + refill[sc[-1].split()[0]] for sc in cleared_in]
+        chk.extra["clear_then_reuse_scripts"] = len(again)
+        vlib.run_scripts(chk, tree, c_exe, m_exe, again, tree.oracle)
         if chk.oracle_failures:
             vlib.shrink_failures(chk, tree, c_exe, tree.oracle, None)
     # --- heap
